@@ -33,6 +33,9 @@ def sh(cmd, cwd=None, env=None, timeout=1800):
 
 def build_and_run(demo, wt, work):
     """-> (rc, output) of the demonstration against the tree in wt"""
+    if demo.endswith('.sh'):
+        rc, out = sh(['sh', demo, wt], cwd=work, timeout=1800)
+        return rc, out[-3000:]
     if demo.endswith('.cpp'):
         exe = os.path.join(work, 'demo.bin')
         rc, out = sh(['sh', os.path.join(VERIF, 'triage', 'build.sh'), demo, exe], env={'REPO': wt})
@@ -57,6 +60,9 @@ def confirm(a):
     demos = [p for p in (os.path.join(src, 'demo.py'), os.path.join(src, 'demo.cpp')) if os.path.exists(p)]
     if len(demos) == 2 and 'demo.cpp' not in open(demos[0]).read():
         demos.reverse()
+    runsh = os.path.join(src, 'run.sh')
+    if os.path.exists(runsh) and os.path.exists(os.path.join(src, 'gen.py')):
+        demos.insert(0, runsh)      # a multi-step demonstration: generate tables, build a driver against them, run it
     if not os.path.exists(patch) or not demos:
         print('missing patch.diff or demo in', src)
         return 2
@@ -107,8 +113,11 @@ def confirm(a):
         dst = os.path.join(SEEDED, a.id)
         os.makedirs(dst, exist_ok=True)
         shutil.copy(patch, os.path.join(dst, 'patch.diff'))
-        for extra in glob.glob(os.path.join(src, '*.cpp')) + glob.glob(os.path.join(src, '*.py')):
+        for extra in glob.glob(os.path.join(src, '*.cpp')) + glob.glob(os.path.join(src, '*.py')) + glob.glob(os.path.join(src, 'run.sh')):
             shutil.copy(extra, os.path.join(dst, os.path.basename(extra)))
+            if extra.endswith('run.sh'):
+                t = open(os.path.join(dst, 'run.sh')).read().replace('/tmp/acekit/build.sh', '/verif/triage/build.sh')
+                open(os.path.join(dst, 'run.sh'), 'w').write(t)
         if os.path.exists(os.path.join(src, 'README.md')):
             shutil.copy(os.path.join(src, 'README.md'), os.path.join(dst, 'NOTES.md'))
         meta = {
